@@ -116,3 +116,115 @@ package proto
 //@   ensures [C10:invalid] err == errInvalidTURNFrame ==> n == 0
 //@   at-call invoke net.Conn.Read assert [C10:read-only-when-incomplete] !complete(s.buff)
 //@   assigns s.buff, bytes(s.buff), bytes(payload), inPos
+
+//@      // ---- fixed-size attribute codecs (C11). attr(m, t) is the value slice stun.Message.Get returns (assumed spec).
+//@ spec func attr(m *stun.Message, t int) []byte = bytesAt(attrBase(m, t), attrOff(m, t), attrLen(m, t))
+//@ spec func present(m *stun.Message, t int, size int) bool = hasAttr(m, t) && attrLen(m, t) == size
+
+//@ func (*ChannelNumber).GetFrom
+//@   requires m != nil
+//@   ensures [C11:size] (res == nil) == present(m, stun.AttrChannelNumber, 4)
+//@   ensures [C08,C11:val] res == nil ==> int(*n) == be16(attr(m, stun.AttrChannelNumber), 0)
+//@   ensures [C11:keep] res != nil ==> *n == old(*n)
+//@   assigns *n
+//@ func (ChannelNumber).AddTo
+//@   requires m != nil
+//@   ensures res == nil
+//@   at-call (*stun.Message).Add assert [C11:enc] arg0 == stun.AttrChannelNumber && len(arg1) == 4 && be16(arg1, 0) == int(n) && arg1[2] == 0 && arg1[3] == 0
+
+//@ func (*Lifetime).GetFrom
+//@   requires m != nil
+//@   ensures [C11:size] (res == nil) == present(m, stun.AttrLifetime, 4)
+//@   ensures [C06,C11:val] res == nil ==> int(l.Duration) == be32(attr(m, stun.AttrLifetime), 0) * 1000000000
+//@   ensures [C11:keep] res != nil ==> l.Duration == old(l.Duration)
+//@   assigns l.Duration
+//@ func (Lifetime).AddTo
+//@   requires m != nil
+//@   requires int(l.Duration) % 1000000000 == 0 && 0 <= int(l.Duration) && int(l.Duration) / 1000000000 < 4294967296
+//@   ensures res == nil
+//@   at-call (*stun.Message).Add assert [C06,C11:enc] arg0 == stun.AttrLifetime && len(arg1) == 4 && be32(arg1, 0) == int(l.Duration) / 1000000000
+
+//@ func (*RequestedTransport).GetFrom
+//@   requires m != nil
+//@   ensures [C11:size] (res == nil) == present(m, stun.AttrRequestedTransport, 4)
+//@   ensures [C11:val] res == nil ==> int(t.Protocol) == int(attr(m, stun.AttrRequestedTransport)[0])
+//@   ensures [C11:keep] res != nil ==> t.Protocol == old(t.Protocol)
+//@   assigns t.Protocol
+//@ func (RequestedTransport).AddTo
+//@   requires m != nil
+//@   ensures res == nil
+//@   at-call (*stun.Message).Add assert [C11:enc] arg0 == stun.AttrRequestedTransport && len(arg1) == 4 && int(arg1[0]) == int(t.Protocol) && arg1[1] == 0 && arg1[2] == 0 && arg1[3] == 0
+
+//@ func (*RequestedAddressFamily).GetFrom
+//@   requires m != nil
+//@   ensures [C11:size] res == nil ==> present(m, stun.AttrRequestedAddressFamily, 4)
+//@   ensures [C11:val] (res == nil) == (present(m, stun.AttrRequestedAddressFamily, 4) && (attr(m, stun.AttrRequestedAddressFamily)[0] == 1 || attr(m, stun.AttrRequestedAddressFamily)[0] == 2))
+//@   ensures [C11:val2] res == nil ==> int(*f) == int(attr(m, stun.AttrRequestedAddressFamily)[0])
+//@   ensures [C11:errs] res == nil || res == stun.ErrAttributeNotFound || res == stun.ErrAttributeSizeInvalid || res == errInvalidRequestedFamilyValue
+//@   ensures [C11:errs-found] res == stun.ErrAttributeNotFound ==> !hasAttr(m, stun.AttrRequestedAddressFamily)
+//@   ensures [C11:keep] res != nil ==> *f == old(*f)
+//@   assigns *f
+//@ func (RequestedAddressFamily).AddTo
+//@   requires m != nil
+//@   ensures res == nil
+//@   at-call (*stun.Message).Add assert [C11:enc] arg0 == stun.AttrRequestedAddressFamily && len(arg1) == 4 && int(arg1[0]) == int(f) && arg1[1] == 0 && arg1[2] == 0 && arg1[3] == 0
+
+//@ func (*EvenPort).GetFrom
+//@   requires m != nil
+//@   ensures [C11:size] (res == nil) == present(m, stun.AttrEvenPort, 1)
+//@   ensures [C11:val] res == nil ==> p.ReservePort == (old(p.ReservePort) || attr(m, stun.AttrEvenPort)[0] != 0)
+//@   ensures [C11:keep] res != nil ==> p.ReservePort == old(p.ReservePort)
+//@   assigns p.ReservePort
+//@ func (EvenPort).AddTo
+//@   requires m != nil
+//@   ensures res == nil
+//@   at-call (*stun.Message).Add assert [C11:enc] arg0 == stun.AttrEvenPort && len(arg1) == 1 && (arg1[0] != 0) == p.ReservePort
+
+//@ func (*ReservationToken).GetFrom
+//@   requires m != nil
+//@   ensures [C11:size] (res == nil) == present(m, stun.AttrReservationToken, 8)
+//@   ensures [C11:val] res == nil ==> sameSlice(*t, attr(m, stun.AttrReservationToken))
+//@   ensures [C11:keep] res != nil ==> sameSlice(*t, old(*t))
+//@   assigns *t
+//@ func (ReservationToken).AddTo
+//@   requires m != nil
+//@   ensures [C11:enc-size] (res == nil) == (len(t) == 8)
+//@   at-call (*stun.Message).Add assert [C11:enc] arg0 == stun.AttrReservationToken && sameSlice(arg1, t) && len(arg1) == 8
+
+//@ func (*ConnectionID).GetFrom
+//@   requires m != nil
+//@   ensures [C11:size] (res == nil) == present(m, stun.AttrConnectionID, 4)
+//@   ensures [C11,C16:val] res == nil ==> int(*c) == be32(attr(m, stun.AttrConnectionID), 0)
+//@   ensures [C11:keep] res != nil ==> *c == old(*c)
+//@   assigns *c
+//@ func (ConnectionID).AddTo
+//@   requires m != nil
+//@   ensures res == nil
+//@   at-call (*stun.Message).Add assert [C11,C16:enc] arg0 == stun.AttrConnectionID && len(arg1) == 4 && be32(arg1, 0) == int(c)
+
+//@ func (*DontFragment).GetFrom
+//@   requires m != nil
+//@   pure
+//@   ensures [C11:size] (res == nil) == present(m, stun.AttrDontFragment, 0)
+//@ func (DontFragment).AddTo
+//@   requires m != nil
+//@   ensures res == nil
+//@   at-call (*stun.Message).Add assert [C11:enc] arg0 == stun.AttrDontFragment && len(arg1) == 0
+//@ func (DontFragment).IsSet
+//@   requires m != nil
+//@   pure
+//@   ensures [C11:isset] res == hasAttr(m, stun.AttrDontFragment)
+
+//@ func (*Data).GetFrom
+//@   requires m != nil
+//@   ensures [C11:present] (res == nil) == hasAttr(m, stun.AttrData)
+//@   ensures [C05,C11:val] res == nil ==> sameSlice(*d, attr(m, stun.AttrData))
+//@   ensures [C11:keep] res != nil ==> sameSlice(*d, old(*d))
+//@   assigns *d
+//@ func (Data).AddTo
+//@   requires m != nil
+//@   ensures res == nil
+//@   at-call (*stun.Message).Add assert [C05,C11:enc] arg0 == stun.AttrData && sameSlice(arg1, d)
+
+//@ lemma [C11:be16-roundtrip] (x): 0 <= x && x < 65536 ==> (x / 256) * 256 + x % 256 == x && x / 256 < 256
+//@ lemma [C11:be32-roundtrip] (x): 0 <= x && x < 4294967296 ==> (((x / 16777216) * 256 + (x / 65536) % 256) * 256 + (x / 256) % 256) * 256 + x % 256 == x
